@@ -208,6 +208,26 @@ struct SP<'a>
 
 impl<'a> SP<'a>
 {
+	/// An optional decimal label number after G or T (default 4).
+	fn label(&mut self) -> Identifier
+	{
+		let mut n = 0u32;
+		let mut any = false;
+		while self.i < self.s.len() && self.s[self.i].is_ascii_digit()
+		{
+			n = n * 10 + u32::from(self.s[self.i] - b'0');
+			self.i += 1;
+			any = true;
+		}
+		let n = if any { n } else { 4 };
+		Identifier {
+			name: format!("label{n}"),
+			location: loc(),
+			resolution_id: 0,
+			is_authoritative: false,
+		}
+	}
+
 	fn stmt(&mut self) -> Statement
 	{
 		let c = self.s[self.i];
@@ -241,11 +261,11 @@ impl<'a> SP<'a>
 			},
 			b'L' => Statement::Loop { location: loc() },
 			b'G' => Statement::Goto {
-				label: id(4),
+				label: self.label(),
 				location: loc(),
 			},
 			b'T' => Statement::Label {
-				label: id(4),
+				label: self.label(),
 				location: loc(),
 			},
 			b'P' => Statement::Poison(Poison::Poisoned),
@@ -407,5 +427,44 @@ pub fn run_lint_tree()
 		let lints: Vec<penne::alpha::linter::Lint> = linter.into();
 		let codes: Vec<u16> = lints.iter().map(|l| l.code()).collect();
 		println!("{:?}", codes);
+	}
+}
+
+
+/// label-eval: the label scoping pass on a function body; labels are written T<n>, gotos G<n>.
+pub fn run_labels()
+{
+	let stdin = std::io::stdin();
+	for line in stdin.lock().lines()
+	{
+		let line = line.unwrap();
+		let mut statements = Vec::new();
+		for part in line.split(' ').filter(|x| !x.is_empty())
+		{
+			statements.push(SP { s: part.as_bytes(), i: 0 }.stmt());
+		}
+		let decl = Declaration::Function {
+			name: id(10),
+			parameters: Vec::new(),
+			body: Ok(FunctionBody {
+				statements,
+				return_value: None,
+				return_value_identifier: id(11),
+			}),
+			return_type: Ok(penne::alpha::value_type::ValueType::Void),
+			flags: EnumSet::new(),
+			location_of_declaration: loc(),
+			location_of_return_type: loc(),
+		};
+		let out = penne::alpha::scoper::verif_label_analyze(vec![decl]);
+		match out.into_iter().next()
+		{
+			Some(Declaration::Function { body: Ok(body), .. }) =>
+			{
+				let parts: Vec<String> = body.statements.iter().map(show_stmt).collect();
+				println!("{}", parts.join(" "));
+			}
+			_ => println!("?"),
+		}
 	}
 }
